@@ -87,6 +87,29 @@ def expandAugs (sch : Schema) : Nat → List String → List PAug → List PNode
     expandAugs sch fuel stack rest b
 end
 
+mutual
+/-- the groupings a list of statements refers to (through `uses`, at any depth, uses-augments included) -/
+def usesIn : Nat → List PNode → List String
+  | 0, _ => []
+  | _, [] => []
+  | f + 1, .node _ kids :: rest => usesIn f kids ++ usesIn f rest
+  | f + 1, .uses u augs :: rest => u.grouping :: (usesInAugs f augs ++ usesIn f rest)
+def usesInAugs : Nat → List PAug → List String
+  | 0, _ => []
+  | _, [] => []
+  | f + 1, (_, kids) :: rest => usesIn f kids ++ usesInAugs f rest
+end
+
+/-- transitive closure over the grouping bodies -/
+def reachG (sch : Schema) : Nat → List String → List String → List String
+  | 0, _, seen => seen
+  | _, [], seen => seen
+  | f + 1, g :: rest, seen =>
+    if seen.contains g then reachG sch f rest seen
+    else
+      let body := ((sch.groupings.find? (·.1 == g)).map (·.2)).getD []
+      reachG sch f (usesIn 1000 body ++ rest) (g :: seen)
+
 /-- every `uses` of a module set replaced by its meaning -/
 def expand (_cfg : Cfg) (sch : Schema) (_order : List String) : Except Err Schema := do
   let fuel := fuelFor sch
@@ -96,7 +119,12 @@ def expand (_cfg : Cfg) (sch : Schema) (_order : List String) : Except Err Schem
       let k ← expandNodes sch fuel [] kids
       pure (h, k)
     pure { m with data := data, augments := augs }
-  -- the groupings stay (nobody uses them any more): `lys_compile` validates unused groupings, so an invalid one still fails
-  .ok { sch with mods := mods }
+  -- the groupings nobody instantiates stay as they are (with the groupings THEY refer to): `lys_compile` validates unused
+  -- groupings, so an invalid one still fails; the instantiated ones are gone with their `uses`
+  let fromData := sch.mods.flatMap fun m => usesIn 1000 m.data ++ usesInAugs 1000 m.augments
+  let used := reachG sch (fuel + 1000) fromData []
+  let unusedG := (sch.groupings.filter fun g => !used.contains g.1)
+  let needed := reachG sch (fuel + 1000) (unusedG.map (·.1)) []
+  .ok { sch with mods := mods, groupings := sch.groupings.filter fun g => !used.contains g.1 || needed.contains g.1 }
 
 end LyModel.Compile
